@@ -23,6 +23,7 @@ const (
 	KNull
 	KError
 	KPanic
+	KErrVal // user code returns an error together with a value (the value is to be ignored: null and one error, like KError)
 	KErrors // user code reports two failures at once (a gqlerror.List of two entries): two entries at the position's path
 )
 
@@ -470,7 +471,7 @@ func (e *exec) field(objType string, obj *Obj, c *collected, path string) (strin
 		e.fail(path)
 		e.fail(path)
 		return e.nullAt(t, path, true)
-	case KError, KPanic:
+	case KError, KPanic, KErrVal:
 		e.fail(path)
 		return e.nullAt(t, path, true)
 	case KNull:
